@@ -389,13 +389,21 @@ class Monitor:
             if k >= 1:
                 self.check_best_feasible(space, 'hook %d' % k)
         h['pos0'] = [np.array(a.position, copy=True) for a in space.agents]
-        if self.cfg.get('hook') == 'move' and self.cfg['space'] != 'tree':
+        if str(self.cfg.get('hook')).startswith('move') and self.cfg['space'] != 'tree':
             for i, a in enumerate(space.agents):
                 if (i + k) % 2 == 0:
                     new = self.lo + (self.hi - self.lo) * np.array(
                         [[self.mover.random() for _ in range(self.shape[1])] for _ in range(self.shape[0])])
                     new = np.minimum(np.maximum(new, self.lo), self.hi)
-                    if i % 4 == 0:
+                    mode = self.cfg.get('hook')
+                    if mode == 'move_out':
+                        # the hook may leave an agent outside the box: the sweep evaluates exactly what the hook left (C03), wherever it is
+                        new = new + ((-1.0) ** i) * 0.05 * (self.hi - self.lo + 1.0)
+                    if mode == 'move_int':
+                        # a hook that snaps agents to the integer lattice and leaves integer-dtype arrays behind
+                        a.position = np.clip(np.rint(new), np.ceil(self.lo), np.floor(self.hi)).astype(np.int64) \
+                            if np.all(np.ceil(self.lo) <= np.floor(self.hi)) else new
+                    elif i % 4 == 0:
                         a.position[...] = new
                     else:
                         a.position = new
@@ -415,7 +423,7 @@ class Monitor:
 
     def check_population(self, space, when):
         """C07 at a hook / at return."""
-        if self.cfg.get('hook') == 'move':
+        if str(self.cfg.get('hook')).startswith('move'):
             return
         n = self.cfg['n_agents']
         if len(space.agents) != n:
@@ -440,7 +448,7 @@ class Monitor:
                     self.v('C07', 'agents-share-position', 'agents %d and %d share position storage (%s)' % (i, j, when), 'shares_memory', 'independent arrays')
 
     def check_best_feasible(self, space, when):
-        if self.cfg.get('hook') == 'move':
+        if str(self.cfg.get('hook')).startswith('move'):
             return
         why = self.check_arg(space.best_agent.position)
         if why:
@@ -539,7 +547,7 @@ class Monitor:
                    b.position, b0p)
 
     def check_c02(self, space, when):
-        if self.cfg.get('hook') == 'move':
+        if str(self.cfg.get('hook')).startswith('move'):
             return
         if self.cfg.get('prelude'):
             return self.check_c02_history(space, when)
@@ -761,6 +769,13 @@ def execute(cfg, light=False, seed=None):
                     mon.best0 = (float(space.best_agent.fit), np.array(space.best_agent.position, copy=True))
                 except Exception:  # noqa: BLE001
                     mon.best0 = None
+            if cfg.get('other_space'):
+                # another live space of the same kind and shape with ANOTHER box, built after the observed one and kept alive
+                try:
+                    lb0, ub0 = bounds(cfg)
+                    mon.other_space = build(dict(cfg, lb=[v - 3.0 for v in lb0], ub=[v + 5.0 for v in ub0]), mon.raw)[0]
+                except Exception:  # noqa: BLE001
+                    mon.other_space = None
             mon.hpn = hp_names(opt)
             mon.hp0 = {k: getattr(opt, k) for k in mon.hpn}
             task = Opytimizer(space=space, optimizer=opt, function=fn)
@@ -990,7 +1005,7 @@ def check_c20(mon):
         return
     # a hook that moves agents is followed by the evaluation sweep, so every record is still truthful (clause 1);
     # the monotonicity clause is about the algorithm's own moves and is not judged then
-    moving = cfg.get('hook') == 'move'
+    moving = str(cfg.get('hook')).startswith('move')
     name = cfg['optimizer']
     ag = getattr(hist, 'agents', None)
     if not isinstance(ag, list):
@@ -1030,7 +1045,7 @@ def check_c20(mon):
 
 
 def check_c01_args(mon):
-    if mon.cfg.get('hook') == 'move':
+    if str(mon.cfg.get('hook')).startswith('move'):
         return
     for i, r in enumerate(mon.evals):
         if r['why']:
@@ -1060,7 +1075,7 @@ def check_c02_records_fixed(mon):
 
 def check_c02_mono(mon):
     check_c02_records_fixed(mon)
-    if mon.cfg.get('hook') == 'move' or mon.first_bad is not None:
+    if str(mon.cfg.get('hook')).startswith('move') or mon.first_bad is not None:
         return
     b = [float(x[1]) for x in getattr(mon.hist, 'best_agent', [])]
     for t in range(1, len(b)):
@@ -1071,7 +1086,7 @@ def check_c02_mono(mon):
 
 def poke_test(mon):
     """C07 at return: add 1.0 in place to each agent in turn; nothing else may move."""
-    if mon.cfg.get('hook') == 'move':
+    if str(mon.cfg.get('hook')).startswith('move'):
         return
     sp, hist = mon.space, mon.hist
     hkeys = [k for k in ('agents', 'best_agent', 'local') if hasattr(hist, k)]
